@@ -309,6 +309,25 @@ pub fn check_buffer(ctx: &mut Ctx, buf: &[u8], o: &Opts) -> Outcome {
     let r = guard(|| Message::from_bytes(buf));
     ctx.wd.leave();
     let w = |entry: &str| wit_bytes(entry, buf, o);
+    // C17: "the stand-alone header decoder accepts exactly the 20-byte prefixes the full parser would
+    // not call non-STUN": a relation between the two entry points themselves, checked directly
+    if buf.len() >= 20 {
+        if let (Ok(full), Ok(hdr)) = (&r, guard(|| MessageHeader::from_bytes(&buf[..20]).is_ok())) {
+            let full_not_stun = matches!(full, Err(StunParseError::NotStun));
+            if hdr == full_not_stun {
+                ctx.violation(
+                    "C17",
+                    "header-agrees-with-parser",
+                    "MessageHeader::from_bytes",
+                    if hdr { "header-accepts-what-parser-calls-not-stun" } else { "header-refuses-what-parser-does-not-call-not-stun" },
+                    || w("MessageHeader::from_bytes"),
+                    format!("header decoder ok = {}", !full_not_stun),
+                    format!("header decoder ok = {hdr}; Message::from_bytes -> {}", match full { Ok(_) => "Ok".to_string(), Err(e) => format!("Err({e:?})") }),
+                );
+            }
+            ctx.count("header-vs-parser-compared");
+        }
+    }
     let msg = match r {
         Err(p) => {
             out.impl_panicked = true;
@@ -587,6 +606,71 @@ pub fn check_buffer(ctx: &mut Ctx, buf: &[u8], o: &Opts) -> Outcome {
             ctx.count("iterator-yielded-after-none");
         }
         ctx.set_insert("tails", tail_shape(buf, &rp.attrs));
+    }
+
+    // ---- every other way of driving the iterator exposes the same sequence (C10: "exposed by
+    //      iteration"): skip / nth / step_by / last / count / fold / by_ref+take, which an
+    //      implementation may specialise, must agree with plain next() ----
+    {
+        let n = exposed.len();
+        let first_int = exposed.iter().position(|e| e.0 == MI || e.0 == MI256);
+        let mut ks: Vec<usize> = (0..=n.min(4)).collect();
+        if let Some(fi) = first_int {
+            ks.extend([fi.saturating_sub(1), fi, fi + 1, fi + 2]);
+        }
+        ks.extend([n.saturating_sub(1), n, n + 1]);
+        ks.sort();
+        ks.dedup();
+        let pair = |a: RawAttribute| (a.get_type().value(), a.value.to_vec());
+        let r = guard(|| {
+            let mut bad: Vec<(String, String, String)> = vec![];
+            let mut chk = |how: String, got: Vec<(u16, Vec<u8>)>, want: Vec<(u16, Vec<u8>)>| {
+                if got != want && bad.len() < 2 {
+                    bad.push((how, fmt_seq(&want), fmt_seq(&got)));
+                }
+            };
+            for &k in &ks {
+                chk(format!("skip({k})"), msg.iter_attributes().skip(k).take(n + 4).map(pair).collect(), exposed.iter().skip(k).cloned().collect());
+                chk(format!("nth({k})"), msg.iter_attributes().nth(k).map(pair).into_iter().collect(), exposed.get(k).cloned().into_iter().collect());
+                // nth(k) and then the rest
+                let mut it = msg.iter_attributes();
+                let _ = it.nth(k);
+                chk(format!("nth({k})+rest"), it.take(n + 4).map(pair).collect(), exposed.iter().skip(k + 1).cloned().collect());
+                // take(k) through by_ref and then the rest
+                let mut it = msg.iter_attributes();
+                let head: Vec<_> = it.by_ref().take(k).map(pair).collect();
+                let rest: Vec<_> = it.take(n + 4).map(pair).collect();
+                chk(format!("by_ref().take({k})+rest"), [head, rest].concat(), exposed.clone());
+            }
+            for step in [2usize, 3] {
+                chk(format!("step_by({step})"), msg.iter_attributes().step_by(step).take(n + 4).map(pair).collect(), exposed.iter().step_by(step).cloned().collect());
+            }
+            chk("last()".into(), msg.iter_attributes().last().map(pair).into_iter().collect(), exposed.last().cloned().into_iter().collect());
+            let cnt = msg.iter_attributes().count();
+            let folded = msg.iter_attributes().fold(0usize, |a, _| a + 1);
+            let (lo, hi) = msg.iter_attributes().size_hint();
+            if cnt != n || folded != n || lo > n || hi.map_or(false, |h| h < n) {
+                bad.push(("count/fold/size_hint".into(), format!("{n} items"), format!("count {cnt} fold {folded} size_hint ({lo}, {hi:?})")));
+            }
+            bad
+        });
+        match r {
+            Err(p) => ctx.violation("C01", "no-panic", "MessageAttributesIter adaptors", "", || w("iter_attributes"), "values".into(), format!("panic: {} at {}", p.msg, p.loc)),
+            Ok(bad) => {
+                ctx.count_n("iterator-adaptor-comparisons", ks.len() as u64 * 4 + 4);
+                for (how, want, got) in bad {
+                    ctx.violation(
+                        "C10",
+                        "exposure-by-any-iteration",
+                        "iter_attributes",
+                        &format!("{},{}", how.split('(').next().unwrap_or(""), tail_shape(buf, &rp.attrs)),
+                        || w("iter_attributes"),
+                        format!("{how} agrees with plain next(): [{want}]"),
+                        format!("[{got}]"),
+                    );
+                }
+            }
+        }
     }
 
     // ---- lookups (C02: first match among the exposed; C10: nothing hidden is found) ----
